@@ -10,7 +10,8 @@ import FpgoVerif.Model.C09Sys
     `stress <params>`            free-running stress with monitors; the prediction is the summary of a
         sequential run of the same job list on `step`.
 
-    cfg: max sb batch c b cq(1/0) jam(ms, 0 = never).  Job kinds: f fast, g gated, p<v> gated then panics
+    cfg: max sb batch c b cq(1/0) jam(ms, 0 = never).  Submissions: `s` Schedule, `t` ScheduleWithTimeout,
+    `i` Invoke (no answer), `it` InvokeWithTimeout, `as` Schedule in its own goroutine.  Job kinds: f fast, g gated, p<v> gated then panics
     with v, q<v> panics at once.  Park points: sched wclosed afterjob exit expiry closeflag tryspawn.
     `nh` = SetPanicHandler(nil), `sh` = SetPanicHandler(recorder), `nhs` = SetDefaultWorkerPoolSettings with a
     nil handler (then all setters again), `hs:<ms>` = the recording handler sleeps first (slow handler; no
@@ -108,6 +109,7 @@ def spStep (m : Sim) : Option Sim :=
     (app m (.spCnt2 m.jam)).map fun m1 =>
       let (m2, p) := arrive m1 "tryspawn"; if p then { m2 with parkedSp := true } else m2
   | .computed _ => if m.parkedSp then none else app m .spRead
+  | .enter _ => app m .spInit
   | .loop _ _ =>
     (app m .spGen).map fun m1 => if m1.s.workers.length > m.s.workers.length then { m1 with jam := false } else m1
   | .sleep => app m .spSleep
@@ -214,6 +216,20 @@ def doOp (m : Sim) (tok : String) : Sim × String :=
     let (m1, i) := newSub m true k.toNat! (parseKind kind)
     let m2 := quiesce fuel0 (runSub 100 m1 i)
     (m2, s!"t{k}={resOf m2 i}")
+  | ["t", k, kind, _] =>
+    -- ScheduleWithTimeout with an explicit timeout (0, tiny, negative): to the model the deadline simply passes
+    let (m1, i) := newSub m true k.toNat! (parseKind kind)
+    let m2 := quiesce fuel0 (runSub 100 m1 i)
+    (m2, s!"t{k}={resOf m2 i}")
+  | ["it", k, kind, _] =>
+    let (m1, i) := newSub m true k.toNat! (parseKind kind)
+    let m2 := quiesce fuel0 (runSub 100 m1 i)
+    (m2, s!"it{k}={resOf m2 i}")
+  | ["it", k, kind] =>
+    -- InvokeWithTimeout = ScheduleWithTimeout of the wrapped callee; its answer is the caller's answer
+    let (m1, i) := newSub m true k.toNat! (parseKind kind)
+    let m2 := quiesce fuel0 (runSub 100 m1 i)
+    (m2, s!"it{k}={resOf m2 i}")
   | ["i", k, kind] =>
     let (m1, i) := newSub m false k.toNat! (parseKind kind)
     let m2 := quiesce fuel0 (runSub 100 m1 i)
@@ -373,7 +389,7 @@ def hasSub (s sub : String) : Bool := (s.splitOn sub).length > 1
 
 /-- answers of the implementation per job position (creation order): true = the call returned an error -/
 def rejectedPositions (ops : List String) (imps : List String) : List Bool :=
-  ((ops.zip imps).filter (fun (o, _) => o.startsWith "s:" || o.startsWith "t:" || o.startsWith "i:" || o.startsWith "as:")).map
+  ((ops.zip imps).filter (fun (o, _) => o.startsWith "s:" || o.startsWith "t:" || o.startsWith "i:" || o.startsWith "it:" || o.startsWith "as:")).map
     fun (_, i) => match i.splitOn "=" with
       | [_, r] => r != "ok" && r != "parked" && r != "notparked"
       | _ => false
@@ -382,7 +398,7 @@ def rejectedPositions (ops : List String) (imps : List String) : List Bool :=
     the pool never closed — only then "an accepted job has not run" is a statement about the pool -/
 def caseComplete (ops : List String) : Bool :=
   let gatedNames := ops.filterMap fun o => match o.splitOn ":" with
-    | [c, k, kind] => if (c == "s" || c == "t" || c == "i" || c == "as") && (kind == "g" || kind.startsWith "p") then some k else none
+    | [c, k, kind] => if (c == "s" || c == "t" || c == "i" || c == "it" || c == "as") && (kind == "g" || kind.startsWith "p") then some k else none
     | _ => none
   let released := ops.filterMap fun o => match o.splitOn ":" with
     | ["r", k] => some k
@@ -418,7 +434,7 @@ def judgeTok (closedCase overlap : Bool) (rej : List Bool) (exp imp : String) : 
         some s!"panic handler log {field imp "han"}, the property prescribes {field exp "han"}"
       else if field imp "g" != "ok" then some s!"more than workerSizeMaximum jobs executing at once: gauge {field imp "g"}"
       else none
-  else if imp.startsWith "s" || imp.startsWith "t" || imp.startsWith "j" then
+  else if imp.startsWith "s" || imp.startsWith "t" || imp.startsWith "it" || imp.startsWith "j" then
     -- a call overlapping a Close that has not returned may be answered either way
     let r := ((imp.splitOn "=").drop 1).headD ""
     if overlap && (r == "ok" || r == "closed" || r == "qclosed") then none
